@@ -45,6 +45,9 @@ pub struct Ord {
     pub one_numeric_key: bool,
     /// a later select dropped a column the sort in effect refers to
     pub key_dropped: bool,
+    /// a projection / join / windowed step happened since the sort (a take after that hits
+    /// finding C07-sort-column-pruned-before-take)
+    pub dirty: bool,
 }
 
 #[derive(Clone, Copy, Debug, PartialEq, Eq)]
@@ -88,6 +91,10 @@ pub struct GenCfg {
     ///  dropped_key_join  a select drops a sort key, then a join follows (C03-dropped-sort-key-join)
     ///  wild_let        a let-table with a wildcard frame (C07-wildcard-let-derive-name)
     ///  const_fold      boolean literals inside logic / case conditions (fold to an alias of another column)
+    ///  group_take_sort_agg  take inside group, later sort, then aggregate (C12-group-take-sort-aggregate)
+    ///  resort_after_take  a new sort after a take (C03-take-sort-take-merged)
+    ///  sort_by_windowed   sort key that is a windowed column (C07-sort-by-windowed-scope)
+    ///  take_far_from_sort  projection / join / windowed step between a sort and its take (C07-sort-column-pruned-before-take)
     ///  mul_right       `a * <expr>` with a non-atomic / computed right operand (C02-mul-right-operand-parens)
     pub hazards: Vec<&'static str>,
     /// `/` between two integer-typed operands (excluded under `generic`, whose `/` is the engine's)
@@ -129,6 +136,8 @@ pub struct Gen<'t, 'd> {
     simple_so_far: bool,
     agg_counter: u32,
     cur_ordered: bool,
+    had_group_take: bool,
+    had_take: bool,
     /// hazards actually generated in this program
     pub touched: Vec<&'static str>,
 }
@@ -212,6 +221,8 @@ impl<'t, 'd> Gen<'t, 'd> {
             simple_so_far: true,
             agg_counter: 0,
             cur_ordered: false,
+            had_group_take: false,
+            had_take: false,
             touched: vec![],
         }
     }
@@ -562,6 +573,10 @@ impl<'t, 'd> Gen<'t, 'd> {
                                 parts.push(FPart::Expr(Expr::Col(ColRef { idx: i, text })));
                             }
                         }
+                    }
+                    // a lone `f"{c}"` is just an alias of c
+                    if !parts.iter().any(|p| matches!(p, FPart::Text(_))) {
+                        parts.push(FPart::Text("_".into()));
                     }
                     Expr::FStr(parts)
                 }
@@ -1183,7 +1198,12 @@ impl<'t, 'd> Gen<'t, 'd> {
     }
 
     fn gen_sort(&mut self, frame: &Frame, ord: &mut Ord, force_total: bool) -> Option<Step> {
-        let refs = self.cols_of(frame, &|_| true);
+        // sorting by a windowed column: finding C07-sort-by-windowed-scope
+        let allow_w = self.haz("sort_by_windowed");
+        if allow_w && frame.cols.iter().any(|c| c.windowed) {
+            self.touch("sort_by_windowed");
+        }
+        let refs = self.cols_of(frame, &|c| allow_w || !c.windowed);
         if refs.is_empty() {
             return None;
         }
@@ -1252,6 +1272,7 @@ impl<'t, 'd> Gen<'t, 'd> {
             total,
             one_numeric_key: one_numeric,
             key_dropped: false,
+            dirty: false,
         };
         Some(Step::Sort(keys))
     }
@@ -1271,11 +1292,25 @@ impl<'t, 'd> Gen<'t, 'd> {
                     single: false,
                 }
             }
-            3 => Step::Take {
-                lo: Some(if self.haz("open_take") { self.touch("open_take"); self.t.range(2, 4) } else { let _ = self.t.word(); 1 }),
-                hi: None,
-                single: false,
-            },
+            3 => {
+                // open-ended takes: `take 2..` (finding C07-offset-without-limit) and the no-op
+                // `take 1..` (finding C07-noop-take-keeps-sort)
+                if self.haz("open_take") {
+                    self.touch("open_take");
+                    Step::Take {
+                        lo: Some(self.t.range(1, 4)),
+                        hi: None,
+                        single: false,
+                    }
+                } else {
+                    let lo = self.t.range(1, 3);
+                    Step::Take {
+                        lo: Some(lo),
+                        hi: Some(lo + 4),
+                        single: false,
+                    }
+                }
+            }
             _ => Step::Take {
                 lo: None,
                 hi: Some(self.t.range(1, 4)),
@@ -1613,6 +1648,7 @@ impl<'t, 'd> Gen<'t, 'd> {
                 }
                 let sort = self.gen_sort(&inner_frame, &mut o, true)?;
                 let inner = vec![sort, self.gen_take()];
+                self.had_group_take = true;
                 *ord = Ord::default();
                 Self::keys_first(frame, &keys);
                 Some(Step::Group { keys, inner })
@@ -1782,7 +1818,19 @@ impl<'t, 'd> Gen<'t, 'd> {
                 // take is only deterministic over a total order
                 w[4] = if si + 1 == n { 1 } else { 0 };
             }
+            if ord.ordered && ord.dirty && !self.haz("take_far_from_sort") {
+                w[4] = 0;
+            }
             let append_risky = self.cur_src_let || ord.ordered || !self.simple_so_far;
+            if self.had_take && !self.haz("resort_after_take") {
+                // `sort | take | sort | take`: the first sort+take is lost (finding C03-take-sort-take-merged)
+                w[3] = 0;
+            }
+            if self.had_group_take && ord.ordered && !self.haz("group_take_sort_agg") {
+                // take-in-group, then sort (+take), then aggregate: finding C12-group-take-sort-aggregate
+                w[6] = 0;
+                w[7] = 0;
+            }
             if ord.ordered && ord.key_dropped && !self.haz("dropped_key_join") {
                 // sort key dropped by a select, then a join: finding C03-dropped-sort-key-join
                 w[5] = 0;
@@ -1823,6 +1871,9 @@ impl<'t, 'd> Gen<'t, 'd> {
             if choice == 3 && self.in_sub {
                 self.touch("sorted_let");
             }
+            if choice == 3 && self.had_take {
+                self.touch("resort_after_take");
+            }
             let st = match choice {
                 0 => Some(self.gen_select(frame)),
                 1 => {
@@ -1845,7 +1896,10 @@ impl<'t, 'd> Gen<'t, 'd> {
                     }
                 }
                 3 => self.gen_sort(frame, ord, false),
-                4 => Some(self.gen_take()),
+                4 => {
+                    self.had_take = true;
+                    Some(self.gen_take())
+                }
                 5 => {
                     if ord.ordered && ord.key_dropped { self.touch("dropped_key_join"); }
                     let js = self.gen_join(frame, ord, depth);
@@ -1853,6 +1907,7 @@ impl<'t, 'd> Gen<'t, 'd> {
                     None
                 }
                 6 => {
+                    if self.had_group_take && ord.ordered { self.touch("group_take_sort_agg"); }
                     let (s, cols) = self.gen_aggregate(frame, &[]);
                     *frame = Frame {
                         cols,
@@ -1861,7 +1916,10 @@ impl<'t, 'd> Gen<'t, 'd> {
                     *ord = Ord::default();
                     Some(s)
                 }
-                7 => self.gen_group(frame, ord),
+                7 => {
+                    if self.had_group_take && ord.ordered { self.touch("group_take_sort_agg"); }
+                    self.gen_group(frame, ord)
+                }
                 8 => {
                     let wf = self.gen_wframe(&ord.clone());
                     let d = self.gen_derive(frame, &ord.clone(), wf, true);
@@ -1899,6 +1957,20 @@ impl<'t, 'd> Gen<'t, 'd> {
                     }
                 }
             };
+            if ord.ordered {
+                let dirtying = match &st {
+                    Some(Step::Select(_)) | Some(Step::SelectExcept(_)) | Some(Step::Join { .. }) | Some(Step::Window { .. }) => true,
+                    Some(Step::Derive(items)) => items.iter().any(|i| i.expr.has_window()),
+                    Some(Step::Filter(e)) => e.has_window(),
+                    _ => choice == 5,
+                };
+                if dirtying {
+                    ord.dirty = true;
+                }
+            }
+            if choice == 4 && ord.ordered && ord.dirty {
+                self.touch("take_far_from_sort");
+            }
             if matches!(st, Some(Step::Select(_)) | Some(Step::SelectExcept(_))) && ord.ordered {
                 let names: Vec<&String> = frame.cols.iter().filter_map(|c| c.name.as_ref()).collect();
                 if ord.key_names.iter().any(|k| !names.contains(&k)) {
@@ -2000,6 +2072,10 @@ impl<'t, 'd> Gen<'t, 'd> {
         self.cur_src_let = use_let;
         self.after_append = false;
         self.simple_so_far = !use_let;
+        let saved_gt = self.had_group_take;
+        self.had_group_take = false;
+        let saved_t = self.had_take;
+        self.had_take = false;
         let more = self.gen_steps(&mut frame, &mut ord, nsteps, depth);
         if self.after_append && !more.is_empty() {
             // anything downstream of a pipeline containing an append may prune its columns
@@ -2008,6 +2084,8 @@ impl<'t, 'd> Gen<'t, 'd> {
         self.cur_src_let = saved.0;
         self.after_append = saved.1;
         self.simple_so_far = saved.2;
+        self.had_group_take = saved_gt;
+        self.had_take = saved_t;
         let _ = had_append;
         steps.extend(more);
         (Pipeline { source, steps }, frame, ord)
